@@ -1,8 +1,21 @@
-(* C04: monitor defined in model/C02.v (shared interpreter monitors). *)
+(* C04: two streams. (1) methods under scripted environments: the monitor is defined in model/C02.v (shared interpreter
+   monitors). (2) methods with cancel / force requests against the run log ("neither runs after it was cancelled", "or
+   after the user forced it"): model, correspondence and monitor of model/C12.v. *)
 From Coq Require Import ZArith List Bool Arith.
-From OP Require Import lib.Obs model.Interp model.InterpRun model.C02.
-Definition input := InterpRun.input.
-Definition output := InterpRun.output.
-Definition run := InterpRun.run.
-Definition out_eqb := InterpRun.out_eqb.
-Definition holds_b := C02.holds_c04.
+From OP Require Import lib.Obs model.Interp model.InterpRun model.C02 model.C12.
+Inductive input := IRun (i : InterpRun.input) | IReq (i : C12.input).
+Inductive output := ORun (o : InterpRun.output) | OReq (o : C12.output).
+Definition run (i : input) : output :=
+  match i with IRun x => ORun (InterpRun.run x) | IReq x => OReq (C12.run x) end.
+Definition out_eqb (a b : output) : bool :=
+  match a, b with
+  | ORun x, ORun y => InterpRun.out_eqb x y
+  | OReq x, OReq y => C12.out_eqb x y
+  | _, _ => false
+  end.
+Definition holds_b (i : input) (o : output) : bool :=
+  match i, o with
+  | IRun x, ORun y => C02.holds_c04 x y
+  | IReq x, OReq y => C12.holds_b x y
+  | _, _ => false
+  end.
